@@ -3,6 +3,7 @@ package c20
 import (
 	"fmt"
 	"hash/fnv"
+	"reflect"
 	"strconv"
 	"strings"
 
@@ -184,6 +185,18 @@ func order(idx int, path []int) int64 {
 	return o
 }
 
+// orderOf additionally ranks paths that only reflection can follow literally after all others,
+// so that the representative of a violation class is a program a user can write.
+func (e *explorer) orderOf(path []int) int64 {
+	o := order(e.idx, path)
+	for _, ai := range path {
+		if e.acts[ai].Reflective {
+			return o + 500_000_000
+		}
+	}
+	return o
+}
+
 func (e *explorer) exprs(path []int) string {
 	parts := make([]string, len(path))
 	for i, ai := range path {
@@ -235,23 +248,101 @@ func (e *explorer) obsName(d diff) string {
 	return "v" + e.acts[d.observer].Expr
 }
 
+const followSrc = `// follow walks v by reflection: "F:name" selects a field, "I:n" an element, "C:name" calls a niladic
+// method (its first result is followed); it returns the last call's results. Needed because the
+// path passes through an exported field of an unexported library type.
+func follow(v any, steps ...string) []any {
+	cur := reflect.ValueOf(v)
+	for k, s := range steps {
+		for cur.Kind() == reflect.Interface || (cur.Kind() == reflect.Ptr && s[0] != 'C') {
+			cur = cur.Elem()
+		}
+		switch s[0] {
+		case 'F':
+			cur = cur.FieldByName(s[2:])
+		case 'I':
+			n, _ := strconv.Atoi(s[2:])
+			cur = cur.Index(n)
+		case 'C':
+			if cur.Kind() != reflect.Ptr && cur.CanAddr() {
+				cur = cur.Addr()
+			}
+			res := cur.MethodByName(s[2:]).Call(nil)
+			if k == len(steps)-1 {
+				out := make([]any, len(res))
+				for i, r := range res {
+					out[i] = r.Interface()
+				}
+				return out
+			}
+			cur = res[0]
+		}
+	}
+	return nil
+}
+
+`
+
+func followExpr(v string, a roview.Action) string {
+	parts := make([]string, len(a.Steps))
+	for i, s := range a.Steps {
+		switch s.Kind {
+		case roview.Field:
+			parts[i] = fmt.Sprintf("%q", "F:"+s.Name)
+		case roview.Index:
+			parts[i] = fmt.Sprintf("%q", "I:"+strconv.Itoa(s.I))
+		default:
+			parts[i] = fmt.Sprintf("%q", "C:"+s.Name)
+		}
+	}
+	return "follow(" + v + ", " + strings.Join(parts, ", ") + ")..."
+}
+
+// goTest renders a self-contained test file: the value's construction, the
+// read-only calls of the path, and one observation before and after.
 func (e *explorer) goTest(path []int, d diff) string {
+	// x: the value under its dynamic type, so that exported fields can be selected even when the
+	// constructor returns an interface (dhcpv6.DHCPv6, dhcpv6.Option, dhcpv6.DUID)
+	x, assert := "v", ""
+	if v, _ := e.in.build(); v != nil {
+		t := reflect.TypeOf(v)
+		el := t
+		for el.Kind() == reflect.Ptr {
+			el = el.Elem()
+		}
+		if n := el.Name(); n != "" && n[0] >= 'A' && n[0] <= 'Z' && el.PkgPath() != "" {
+			x, assert = "x", fmt.Sprintf("x := any(v).(%s)", t.String())
+		}
+	}
+	expr := func(a roview.Action) string {
+		if a.Reflective {
+			return followExpr("v", a)
+		}
+		return a.GoExpr(x)
+	}
 	obs := d.heldName
 	if d.observer >= 0 {
-		obs = e.acts[d.observer].GoExpr("v")
+		obs = expr(e.acts[d.observer])
 	}
 	var body strings.Builder
 	for _, l := range strings.Split(e.in.src, "\n") {
 		body.WriteString("\t" + l + "\n")
 	}
+	if assert != "" {
+		body.WriteString("\t" + assert + "\n\t_ = x\n")
+	}
 	fmt.Fprintf(&body, "\tbefore := show(%s)\n", obs)
 	for _, ai := range path {
-		fmt.Fprintf(&body, "\t_ = show(%s) // read-only call\n", e.acts[ai].GoExpr("v"))
+		fmt.Fprintf(&body, "\t_ = show(%s) // read-only call\n", expr(e.acts[ai]))
 	}
 	fmt.Fprintf(&body, "\tafter := show(%s)\n", obs)
 	body.WriteString("\tif before != after {\n\t\tt.Fatalf(\"a read-only call changed the value:\\n before %s\\n after  %s\", before, after)\n\t}\n")
+	refl := strings.Contains(body.String(), "follow(")
 	var b strings.Builder
 	b.WriteString("package c20replay\n\nimport (\n\t\"fmt\"\n\t\"testing\"\n")
+	if refl {
+		b.WriteString("\t\"reflect\"\n\t\"strconv\"\n")
+	}
 	for _, im := range [][2]string{{"bytes.", "bytes"}, {"hex.", "encoding/hex"}, {"net.", "net"}, {"strings.", "strings"}, {"time.", "time"},
 		{"dhcpv4.", "github.com/insomniacslk/dhcp/dhcpv4"}, {"dhcpv6.", "github.com/insomniacslk/dhcp/dhcpv6"}, {"iana.", "github.com/insomniacslk/dhcp/iana"},
 		{"rfc1035label.", "github.com/insomniacslk/dhcp/rfc1035label"}, {"corpus6.", "verif/seq/corpus6"}} {
@@ -262,6 +353,9 @@ func (e *explorer) goTest(path []int, d diff) string {
 	b.WriteString(")\n\nfunc show(a ...any) string { return fmt.Sprintf(\"%#v\", a) }\n\n")
 	if strings.Contains(body.String(), "first(") {
 		b.WriteString("func first[T any](v T, _ ...any) T { return v }\n\n")
+	}
+	if refl {
+		b.WriteString(followSrc)
 	}
 	b.WriteString("func TestC20Replay(t *testing.T) {\n")
 	b.WriteString(body.String())
@@ -379,7 +473,7 @@ func (e *explorer) reportSeq(p []int, observers []int, out outcome) {
 		fp = e.acts[p[0]].Method + "|" + clause(p[0], ds) + "|with-later-reads"
 	}
 	e.viol++
-	e.c.Report(fw.Violation{Fingerprint: fp, Order: order(e.idx, p), Scope: e.in.kind,
+	e.c.Report(fw.Violation{Fingerprint: fp, Order: e.orderOf(p), Scope: e.in.kind,
 		Input:    fmt.Sprintf("value %s (%s):\n%s\ncalls: %s", e.in.name, e.in.kind, e.in.src, e.exprs(p)),
 		Observed: fmt.Sprintf("after the sequence, %d observation(s) differ from the untouched value: %s. E.g. %s: before %s, after %s (%s)", len(ds), e.describe(ds), e.obsName(d), short(d.want, 240), short(d.got, 240), attribution),
 		Expected: "snapshot identical before and after any sequence of read-only calls",
@@ -529,7 +623,7 @@ func (e *explorer) explore(b bounds) stats {
 			fp += "|through:" + a.Via
 		}
 		e.viol++
-		c.Report(fw.Violation{Fingerprint: fp, Order: order(e.idx, []int{x.a}), Scope: e.in.kind,
+		c.Report(fw.Violation{Fingerprint: fp, Order: e.orderOf([]int{x.a}), Scope: e.in.kind,
 			Input:    fmt.Sprintf("value %s (%s):\n%s\ncall: v%s", e.in.name, e.in.kind, e.in.src, a.Expr),
 			Observed: fmt.Sprintf("after the call, %d observation(s) differ from the untouched value: %s. E.g. %s: before %s, after %s", len(x.ds), e.describe(x.ds), e.obsName(d), short(d.want, 240), short(d.got, 240)),
 			Expected: "snapshot (encoding, every accessor result, caller-held argument slices) identical before and after a read-only call",
